@@ -126,6 +126,7 @@ class Sched:
         self.fresh = {}             # t -> qualname of a pipe.py function just entered
         self.markers = []           # (t, qualname) in the order the first body line executed
         self.ident = {}             # thread ident -> t
+        self.unlocked = []          # (func, line, text): BufferedPipe state touched while its _lock is free
 
     # -- worker side -----------------------------------------------------------
     def _park(self, t, info):
@@ -178,6 +179,15 @@ class Sched:
                         if text.lstrip().startswith("with"):
                             entered.add(key)
                         info["lock"] = m.group(1)
+                if (not info["lock"] and fn.endswith(LOCK_FILES[0]) and ("self._buffer" in text or "self._event" in text)
+                        and frame.f_code.co_name not in ("__init__", "_buffer_frombytes", "_buffer_tobytes")):
+                    # an access to the buffer / event while the buffer's lock is free is a switch point
+                    # of its own (the code relies on every such access being inside the lock)
+                    lk = getattr(frame.f_locals.get("self"), "_lock", None)
+                    if lk is not None and hasattr(lk, "locked") and not lk.locked():
+                        self.unlocked.append((info["func"], info["line"], text.strip()))
+                        self._park(t, info)
+                        return local
                 if fn.endswith(PIPE_FILE) or info["lock"]:
                     self._park(t, info)
             return local
@@ -651,6 +661,7 @@ class ChanEnv:
         if self.fd is None:
             self.fd = self.ch.fileno()
         return {"readable": is_readable(self.fd), "wanted": chan_wanted(self.ch), "dead": dead,
+                "unlocked": list(sched.unlocked),
                 "exc": {k: repr(v) for k, v in sched.exc.items()},
                 "lens": [len(self.ch.in_buffer), len(self.ch.in_stderr_buffer)],
                 "eof": bool(self.ch.eof_received), "closed": bool(self.ch.closed)}
@@ -673,6 +684,15 @@ def chan_setups(rng, count):
         progs = [t0, t1, t2] if rng.random() < 0.6 else ([t0, t1] if rng.random() < 0.5 else [t0, t2])
         out.append((pre, progs))
     return out
+
+
+def drain_race_setups():
+    """A buffer that already holds data, the transport thread feeding it again, a reader draining it
+    completely: every position of the drain relative to the feed's statements (in particular between the
+    feed's entry and its lock acquisition) is enumerated."""
+    return [([(0, 0)], [[(0, 1)], [(4, 0)]]),
+            ([(2, 0)], [[(2, 1)], [(5, 1)]]),
+            ([(0, 0), (2, 0)], [[(0, 1), (2, 1)], [(4, 0)], [(5, 1)]])]
 
 
 def late_fileno_setups(thorough):
@@ -830,6 +850,7 @@ def run(ctx):
         # ---- 3. channel level, concurrent (oracle) --------------------------------------------
         nrun = 0
         setups = [(pre, progs, False) for pre, progs in chan_setups(rng, 12 if ctx.thorough else 6)]
+        setups += [(pre, progs, False) for pre, progs in drain_race_setups()]
         setups += [(pre, progs, True) for pre, progs in late_fileno_setups(ctx.thorough)]
         for pre, progs, late in setups:
             gen = explore(lambda: ChanEnv(pre, progs, late), 2, (120 if ctx.thorough else 60) if not late else (80 if ctx.thorough else 30))
@@ -843,6 +864,11 @@ def run(ctx):
                              case=case, observed=obs["dead"])
                 elif obs["exc"]:
                     ctx.fail("channel-op-raises", "a channel operation raised", case=case, observed=obs["exc"])
+                elif obs["unlocked"] and obs["readable"] == obs["wanted"]:
+                    ctx.fail("buffer-state-touched-outside-buffer-lock",
+                             "a BufferedPipe method reads or writes _buffer/_event while the buffer's lock is free "
+                             "(the event maintenance relies on every such access being inside the lock)",
+                             case=case, observed=obs["unlocked"][:3])
                 elif obs["readable"] != obs["wanted"]:
                     ctx.fail("channel-readable-mismatch-at-quiescence",
                              "after all operations returned, select() on Channel.fileno() disagrees with "
